@@ -255,6 +255,49 @@ func checkC19(c *Ctx, r *Report) {
 		}
 	}
 
+	// a handshake object that is reused starts from nothing: Reset re-initialises every state (unexported) field, so
+	// no identity, token flag or parsed parameter of the previous peer survives into the next exchange
+	if f := r1.need("(*" + srvT + ").Reset"); f != nil {
+		nt := c.Named(hsP, "PeerIDAuthHandshakeServer")
+		nF := 0
+		if nt != nil {
+			if st, ok := nt.Underlying().(*types.Struct); ok {
+				for i := 0; i < st.NumFields(); i++ {
+					fld := st.Field(i)
+					if fld.Exported() {
+						continue // configuration, owned by the caller
+					}
+					nF++
+					touched := false
+					isF := func(v ssa.Value) bool {
+						fa, ok := v.(*ssa.FieldAddr)
+						if !ok {
+							return false
+						}
+						fl, base := fieldAddrOf(fa)
+						return fl != nil && fl.Name() == fld.Name() && fieldKeyOf(base, fl) == srvT+"."+fld.Name()
+					}
+					allInstrs(f, func(in ssa.Instruction) {
+						switch x := in.(type) {
+						case *ssa.Store:
+							if isF(x.Addr) {
+								touched = true
+							}
+						case *ssa.Call:
+							for _, a := range x.Call.Args {
+								if derivesFrom(a, isF) {
+									touched = true
+								}
+							}
+						}
+					})
+					r1.Check(touched, "(*"+srvT+").Reset: clears "+fld.Name(), f.Pos(), 1, "", "state of the previous exchange survives Reset: with omitempty JSON and partial updates, a later blob can carry the previous peer's IsToken / PeerID", "")
+				}
+			}
+		}
+		r1.Check(nF >= 5, "(*"+srvT+").Reset: state fields", f.Pos(), nF, "", "", "")
+	}
+
 	// ---- R2 ---------------------------------------------------------------
 	r2 := r.Rule("C19-R2", "E1/E6", 4, "opaqueState.Unmarshal parses only past hmac.Equal over exactly the parsed bytes")
 	if um := r2.need(unmK); um != nil {
